@@ -414,3 +414,233 @@ func (e *env) pushAndObserve(c *caseCtx, choices []colChoice, row []driver.Value
 		c.run.Inconclusive(fmt.Sprintf("case %d: binlog path undecided", c.i))
 	}
 }
+
+// naturalChoice: the column type a table would be created with for the field
+// (independent of one row's values, so that two different rows fit).
+func naturalChoice(s *colSpec, dvs ...driver.Value) colChoice {
+	c := colChoice{dt6: true}
+	if s.intBits != 0 {
+		c.intBits, c.unsigned = s.intBits, s.intUns
+		for _, dv := range dvs {
+			if n, ok := dv.(int64); ok && n < 0 && s.intUns {
+				c.unsigned = false // uint64 >= 2^63 is emitted as a negative int64: signed BIGINT
+			}
+		}
+	} else {
+		c.intBits = 64
+	}
+	c.float32c = s.isFloat32
+	c.lob = len(s.name)%2 == 0
+	return c
+}
+
+// transitionRow derives from x the other image of an UPDATE: every column
+// either keeps x's value or moves - to NULL / the zero value, to the value of
+// an unrelated row, or (maps) to a map with more or fewer keys.
+func (c *caseCtx) transitionRow(r *rand.Rand) (reflect.Value, error) {
+	ti := c.ti
+	other, err := ti.genRow(r, r.Intn(2) == 0)
+	if err != nil {
+		return other, err
+	}
+	row := reflect.New(ti.typ)
+	row.Elem().Set(c.x.Elem())
+	for k, s := range ti.specs {
+		if ti.table.Columns[k].Primary {
+			continue // an UPDATE keeps the key
+		}
+		f := row.Elem().FieldByIndex(s.fieldIdx)
+		switch r.Intn(4) {
+		case 0: // unchanged
+		case 1: // to NULL / zero (from NULL: to the other row's value)
+			if f.IsZero() {
+				f.Set(other.Elem().FieldByIndex(s.fieldIdx))
+			} else {
+				f.Set(reflect.Zero(s.fieldType))
+			}
+		case 2:
+			f.Set(other.Elem().FieldByIndex(s.fieldIdx))
+		default:
+			if f.Kind() == reflect.Map && !f.IsNil() && f.Type().Key().Kind() == reflect.String {
+				// a fresh map with extra keys (so that the other image has fewer)
+				m := reflect.MakeMap(f.Type())
+				for _, key := range f.MapKeys() {
+					m.SetMapIndex(key, f.MapIndex(key))
+				}
+				ov := other.Elem().FieldByIndex(s.fieldIdx)
+				for n := 1 + r.Intn(2); n > 0; n-- {
+					key := reflect.New(f.Type().Key()).Elem()
+					key.SetString(fmt.Sprintf("extra-%d", r.Intn(1000)))
+					val := reflect.Zero(f.Type().Elem())
+					if ov.Kind() == reflect.Map && ov.Len() > 0 {
+						val = ov.MapIndex(ov.MapKeys()[0])
+					}
+					m.SetMapIndex(key, val)
+				}
+				f.Set(m)
+			} else if (f.Type() == bytesType || f.Type() == reflect.TypeOf([]string(nil))) && !f.IsNil() && f.Len() > 0 {
+				f.Set(f.Slice(0, 0)) // shrinks to empty (not NULL)
+			} else {
+				f.Set(other.Elem().FieldByIndex(s.fieldIdx))
+			}
+		}
+	}
+	return row, nil
+}
+
+// updatePairPath pushes UPDATE rows events whose before and after images are
+// two different rows (x and a transition of x, in either order; sometimes two
+// pairs in one event) through the poll loop. Two live dependencies, one made
+// of all column values of each image, must both be invalidated: the after
+// image must decode to exactly the row it carries (columns that went to NULL,
+// maps that lost keys, slices that shrank) and decoding it must leave the
+// before image as it was.
+func (e *env) updatePairPath(c *caseCtx) {
+	ti := c.ti
+	ts := e.tstate[ti.name]
+	if atomic.LoadInt64(&quiescentVerdicts) >= 3 {
+		c.run.Count("binlog_e2e_skipped_after_repeated_no_invalidation_verdicts", 1)
+		return
+	}
+	r := c.run.Rand("update", c.i)
+	tr, err := c.transitionRow(r)
+	if err != nil {
+		c.run.Broken(err.Error())
+		return
+	}
+	var trVals []interface{}
+	var uerr error
+	if pn := safely(func() { trVals, uerr = c.z.schema.UnbuildStruct(ti.name, tr.Interface()) }); pn != nil || uerr != nil {
+		c.run.Count("update_pair_skipped_transition_not_encodable", 1)
+		return
+	}
+	image := func(orig reflect.Value, vals []interface{}) ([]driver.Value, sqlgen.Filter, bool) {
+		row := make([]driver.Value, len(vals))
+		for k := range vals {
+			row[k] = encode(vals[k], naturalChoice(ti.specs[k], c.vals[k], trVals[k]), pBinlog)
+		}
+		var y interface{}
+		var derr error
+		if pn := safely(func() { y, derr = c.z.schema.BuildStruct(ti.name, row) }); pn != nil || derr != nil {
+			return nil, nil, false
+		}
+		if len(ti.diff(orig.Elem(), reflect.ValueOf(y).Elem(), true)) > 0 {
+			return nil, nil, false
+		}
+		f := sqlgen.Filter{}
+		for _, s := range ti.specs {
+			f[s.name] = reflect.ValueOf(y).Elem().FieldByIndex(s.fieldIdx).Interface()
+		}
+		return row, f, true
+	}
+	xRow, xFilter, ok1 := image(c.x, c.vals)
+	tRow, tFilter, ok2 := image(tr, trVals)
+	if !ok1 || !ok2 {
+		c.run.Count("update_pair_skipped_image_not_decodable_alone", 1) // the single-row oracles report that
+		return
+	}
+	if len(ti.diff(c.x.Elem(), tr.Elem(), false)) == 0 {
+		c.run.Count("update_pair_identical_images", 1)
+	}
+	before, after := tRow, xRow
+	if r.Intn(2) == 0 {
+		before, after = xRow, tRow
+	}
+	layoutRow := func(row []driver.Value) []interface{} {
+		brow := make([]interface{}, len(ts.layout))
+		for j := range brow {
+			brow[j] = int32(7)
+		}
+		for k := range row {
+			brow[ts.lpos[k]] = row[k]
+		}
+		return brow
+	}
+	rows := [][]interface{}{layoutRow(before), layoutRow(after)}
+	if r.Intn(3) == 0 { // two pairs in one event
+		rows = append([][]interface{}{layoutRow(after), layoutRow(before)}, rows...)
+	}
+	et := replication.UPDATE_ROWS_EVENTv2
+	if r.Intn(3) == 0 {
+		et = replication.UPDATE_ROWS_EVENTv1
+	}
+	c.run.Count("binlog_update_pairs:"+et.String(), 1)
+	for k := range c.vals {
+		a, b := c.vals[k], trVals[k]
+		switch {
+		case a == nil && b != nil, a != nil && b == nil:
+			c.run.Count("update_pair_column_transition:null<->value", 1)
+		case !refEq(snapshot(a), snapshot(b)):
+			c.run.Count("update_pair_column_transition:value->value", 1)
+		}
+	}
+
+	filters := []sqlgen.Filter{xFilter, tFilter}
+	runs := make([]int64, len(filters))
+	var rrs []*reactive.Rerunner
+	for n := range filters {
+		n := n
+		rrs = append(rrs, reactive.NewRerunner(context.Background(), func(ctx context.Context) (interface{}, error) {
+			_ = e.ldb.AddDependency(ctx, livesql.QueryDependency{Table: ti.name, Filter: filters[n]})
+			atomic.AddInt64(&runs[n], 1)
+			atomic.AddInt64(&e.activity, 1)
+			return nil, nil
+		}, 0, false))
+	}
+	defer func() {
+		for _, rr := range rrs {
+			rr.Stop()
+		}
+	}()
+	act := func() int64 { return atomic.LoadInt64(&e.activity) + atomic.LoadInt64(&e.st.queries) }
+	all := func(n int64) func() bool {
+		return func() bool {
+			for k := range runs {
+				if atomic.LoadInt64(&runs[k]) < n {
+					return false
+				}
+			}
+			return true
+		}
+	}
+	if o := vlib.WaitCond(all(1), act, 10*time.Second, 60*time.Second); o != vlib.Reached {
+		c.run.Inconclusive(fmt.Sprintf("case %d: rerunners did not start (%s)", c.i, o))
+		return
+	}
+	errsBefore := atomic.LoadInt64(&e.log.n)
+	tm := &replication.TableMapEvent{TableID: ts.id, Schema: []byte(verifDatabase), Table: []byte(ti.name), ColumnCount: uint64(len(ts.layout))}
+	if !ts.mapped {
+		ts.mapped = true
+		e.push(&replication.BinlogEvent{Header: &replication.EventHeader{EventType: replication.TABLE_MAP_EVENT}, Event: tm})
+	}
+	e.push(&replication.BinlogEvent{Header: &replication.EventHeader{EventType: et}, Event: &replication.RowsEvent{Version: 2, Table: tm, TableID: tm.TableID, ColumnCount: uint64(len(ts.layout)), Rows: rows}})
+	done := all(2)
+	o := vlib.WaitCond(func() bool { return done() || atomic.LoadInt64(&e.log.n) > errsBefore }, act, 10*time.Second, 60*time.Second)
+	w := func(extra map[string]interface{}) map[string]interface{} {
+		m := map[string]interface{}{"table": ti.name, "event": et.String(), "pairs_in_event": len(rows) / 2,
+			"x": showStruct(c.x.Interface()), "transition_of_x": showStruct(tr.Interface()), "x_is": map[bool]string{true: "after image", false: "before image"}[&after[0] == &xRow[0]],
+			"before_image": showRow(c.names, before), "after_image": showRow(c.names, after)}
+		for k, v := range extra {
+			m[k] = v
+		}
+		return m
+	}
+	switch {
+	case atomic.LoadInt64(&e.log.n) > errsBefore:
+		c.violate("", w(map[string]interface{}{"what": "binlog path: the poll loop failed to decode an UPDATE rows event whose images decode one by one", "logged": vlib.Trunc(e.log.last(), 500)}))
+	case o == vlib.Reached:
+		c.run.Count("binlog_update_pairs_both_images_matched", 1)
+	case o == vlib.QuiescentNot:
+		atomic.AddInt64(&quiescentVerdicts, 1)
+		var missing []string
+		for k, name := range []string{"the image equal to x", "the image equal to the transition of x"} {
+			if atomic.LoadInt64(&runs[k]) < 2 {
+				missing = append(missing, name)
+			}
+		}
+		c.violate("", w(map[string]interface{}{"what": "binlog path: an image of an UPDATE rows event did not decode to the row it carries (its all-columns dependency was not invalidated at quiescence)",
+			"column": strings.Join(missing, " and ")}))
+	default:
+		c.run.Inconclusive(fmt.Sprintf("case %d: update pair undecided", c.i))
+	}
+}
